@@ -433,7 +433,15 @@ class AccessMixin(object):
       yield st, V(BOOL, self.isinstance_(st, args[0], args[1]))
     elif name == 'callable':
       a = args[0]
-      yield st, V(BOOL, z3.BoolVal(True) if not isinstance(a, V) else (a.t != 0 if a.ty.k in ('fn', 'any') else z3.BoolVal(False)))
+      if not isinstance(a, V):
+        yield st, mk_bool(True)
+      elif a.ty.k in ('fn', 'any'):
+        # an opaque value is callable iff it stands for a function / class / bound method
+        yield st, V(BOOL, z3.Or(a.t >= 5000000, z3.Function('is_callable', I, z3.BoolSort())(a.t)))
+      elif a.ty.k == 'ref' and (a.ty.name + '.__call__') in self.reg.externs:
+        yield st, V(BOOL, a.t != 0)
+      else:
+        yield st, mk_bool(False)
     elif name == 'any':
       a = args[0]
       if isinstance(a, V) and a.ty.k in ('list', 'deque') and self.always_truthy(a.ty.args[0]):
@@ -637,6 +645,7 @@ class AccessMixin(object):
     if name in ('add', 'discard', 'remove'):
       x = coerce(args[0], ety)
       had = z3.Select(mem, x)
+      st.assume(z3.Implies(had, card >= 1))      # a set with a member has at least one element
       if name == 'add':
         self.set_update(st, s, mem=z3.Store(mem, x, z3.BoolVal(True)), card=z3.If(had, card, card + 1))
         yield st, NONE_V
